@@ -1362,7 +1362,9 @@ func (x *Xlat) setElems(st *State, key string, es Sort, hOld, hNew *Term, touche
 	st.env[key] = h2
 	tb, jb := Const("t!", SSlice), Const("j!", SInt)
 	lhs := x.atTerm(h2, tb, jb, es)
-	st.assume(Forall([]Bind{{"t!", SSlice}, {"j!", SInt}}, Imp(Not(touched(tb, jb)), Eq(lhs, x.atTerm(hOld, tb, jb, es))), []*Term{lhs}))
+	// two alternative triggers: a read in the new heap pulls in the old value, and a read in the old heap (e.g. the
+	// witness of an existential established before the write) is carried forward to the new heap
+	st.assume(Forall([]Bind{{"t!", SSlice}, {"j!", SInt}}, Imp(Not(touched(tb, jb)), Eq(lhs, x.atTerm(hOld, tb, jb, es))), []*Term{lhs}, []*Term{x.atTerm(hOld, tb, jb, es)}))
 	return h2
 }
 
